@@ -3,8 +3,12 @@ module verif
 go 1.23
 
 require (
+	github.com/go-gl/glfw v0.0.0-20200222043503-6f7a984d4dc4
+	github.com/gordonklaus/portaudio v0.0.0-20180817120803-00e7307ccd93
 	github.com/scottyw/tetromino v0.0.0
 )
+
+require github.com/go-gl/gl v0.0.0-20190320180904-bf2b1f2f34d7 // indirect
 
 replace github.com/scottyw/tetromino => /repo
 
